@@ -71,6 +71,14 @@ def ctxOracles (id op : String) (c : Ctx) (x y : Dec) (iarg : Int) (impl : Out) 
         out := out ++ [s!"{id} PROPFAIL C02 inexact without rounded on a finite result of {op}"]
       if impl.fl.overflow && !impl.fl.inexact then
         out := out ++ [s!"{id} PROPFAIL C02 overflow without inexact ({op})"]
+    -- compare with an infinite operand (no NaN): the specification's numeric order (GDA compare; C08 names
+    -- infinities as operands, C15 owns the order)
+    if op == "cmp" && !x.isNaN && !y.isNaN && (x.form == .infinite || y.form == .infinite) then
+      let want := Apd.specCmp x y
+      let got : Int := if impl.d.neg then -(impl.d.coeff : Int) else (impl.d.coeff : Int)
+      if !(impl.d.form == .finite && impl.d.exp == 0 && got == want && impl.fl == {}) then
+        out := out ++ [s!"{id} PROPFAIL C08 compare with an infinite operand: expected {want} and no condition",
+                       s!"{id} PROPFAIL C15 compare with an infinite operand: expected {want}"]
     if op == "quoint" && impl.d.form == .finite && impl.d.exp != 0 then
       out := out ++ [s!"{id} PROPFAIL C07 QuoInteger exponent not 0"]
     match (if wfRange then exactOf op c x y else none) with
@@ -212,6 +220,17 @@ def handleOrder3 (id : String) (t : List String) : Option (List String × Nat ×
     let z := (← parseDec zs).d
     let cxy ← cxy.toInt?; let cyx ← cyx.toInt?; let cyz ← cyz.toInt?; let cxz ← cxz.toInt?
     let txy ← txy.toInt?; let tyx ← tyx.toInt?; let tyz ← tyz.toInt?; let txz ← txz.toInt?
+    -- the exact order, without materialising 10^gap when an operand is zero or the exponents are billions apart
+    let specCmp (d x : Dec) : Int :=
+      if d.form == .finite && x.form == .finite && (d.coeff == 0 || x.coeff == 0) then
+        let sg (v : Dec) : Int := if v.coeff == 0 then 0 else if v.neg then -1 else 1
+        cmpInt (sg d) (sg x)
+      else if d.form == .finite && x.form == .finite && (d.exp - x.exp > 400000 || x.exp - d.exp > 400000) then
+        -- non-zero, far apart: the adjusted exponents decide
+        let sg (v : Dec) : Int := if v.neg then -1 else 1
+        if sg d != sg x then cmpInt (sg d) (sg x)
+        else sg d * cmpInt ((ndigits d.coeff : Int) + d.exp) ((ndigits x.coeff : Int) + x.exp)
+      else Apd.specCmp d x
     let model := s!"{x.cmp y} {y.cmp x} {y.cmp z} {x.cmp z} {x.cmpTotal y} {y.cmpTotal x} {y.cmpTotal z} {x.cmpTotal z}"
     let impl := s!"{cxy} {cyx} {cyz} {cxz} {txy} {tyx} {tyz} {txz}"
     let mut r := cmpRes id "result" model impl
@@ -954,6 +973,10 @@ def handleLine (line : String) : Option (List String × Nat × Nat) :=
        match model? with
        | some m => if m == d.d then some ([], 0, 0) else some ([s!"{id} MISMATCH consts model= {m.coeff}E{m.exp}"], 1, 0)
        | none => some ([s!"{id} MISMATCH consts model= no such table entry"], 1, 0))
+  | [id, "snapshot", a, b, "=>", st] =>
+    -- the package's shared tables and constants compared with their state at the start of the stream
+    if st == "same" then some ([], 0, 0)
+    else some (propfail id "C06" s!"shared package state (lookup tables / constants) changed while the cases {a}..{b} of this stream ran")
   | id :: "conc" :: rest =>
     (match rest.getLast? with
      | some "same" => some ([], 0, 0)
